@@ -5,7 +5,7 @@ import itertools
 
 import numpy as np
 
-from checks.common import hash_tag, relayout, xf_build, xf_names
+from checks.common import hash_tag, relayout, xf_build, xf_names, si_cells
 from qmc import gen as G
 from qmc import oracle as O
 from qmc.loader import load
@@ -18,8 +18,8 @@ RULE = (
     "zero-below-subdiagonal column masks, Q8 strictly-lower support masks) ; non-trivial = A non-zero; distinct = sha1(input)"
 )
 BOUNDS = {
-    "quick": "n<=5; structure classes incl. nearly-Hermitian / nearly-triangular / nearly-Hessenberg perturbations (2^-20..2^-30, float32 triangle); all 2^(n-2) column masks x 2 entry classes; all 2^(n(n-1)/2) lower support masks for n<=4; scalings 2^+-27",
-    "thorough": "n<=7, 3 fill rows",
+    "quick": "n<=5; structure classes incl. nearly-Hermitian / nearly-triangular / nearly-Hessenberg perturbations (2^-20..2^-30, float32 triangle); all 2^(n-2) column masks x 2 entry classes; all 2^(n(n-1)/2) lower support masks for n<=4; scalings 2^+-27; exhaustive small-integer cells: all 2x2 over {0,1,-1,i,j,k}, 3x3 over {-1,0,1} (every 4th), 2x3/3x2 over {0,1,i,j} (every 4th); exhaustive Hermitian small-integer cells: diagonal over {-1,0,1}, off-diagonal over {0,1,-1,i,j,k}: all 2x2, every 3rd 3x3",
+    "thorough": "n<=7, 3 fill rows; exhaustive small-integer cells in full (2x2 over {0,1,-1,i,j,k}, 3x3 over {-1,0,1}, 2x3/3x2 over {0,1,i,j}) and 3x3 over {-1,0,1,2} (every 16th); exhaustive Hermitian small-integer cells in full (2x2, 3x3: diagonal {-1,0,1}, off-diagonal {0,1,-1,i,j,k})",
 }
 THOROUGH_STREAMS = 8
 WALL_BUDGET = {"quick": 300, "thorough": 2400}
@@ -75,6 +75,14 @@ def cases(tier, seed):
         for nm in xf_names(n, n, hermitian=True):
             if not nm.startswith("lay:"):
                 out.append({"key": f"xfh/n={n}/{nm}", "grp": "xfh", "n": n, "xf": nm, "row": 0})
+    # exhaustive small-integer matrices (every matrix over a small alphabet: exact ties, exact dependencies, exactly invariant subspaces)
+    for m_, n_, names in si_cells(tier):
+        if m_ == n_:
+            for nm in names:
+                out.append({"key": f"si/n={n_}/{nm}", "grp": "xf", "n": n_, "xf": nm, "row": 0, "_fixed": True})
+    for n_, _n2, names in si_cells(tier, hermitian=True):
+        for nm in names:
+            out.append({"key": f"sih/n={n_}/{nm}", "grp": "xfh", "n": n_, "xf": nm, "row": 0, "_fixed": True})
     for n in (8, 9, 12, 17):
         for st in ("generic", "hermitian", "hess", "ints"):
             out.append({"key": f"{st}/n={n}/large", "grp": "struct", "st": st, "n": n, "row": 0})
